@@ -75,19 +75,22 @@ func (tx *Tx) change(f *FeeQuote, output *changeOutput) (uint64, bool, error) {
 	if err != nil {
 		return 0, false, err
 	}
-	varIntUpper := VarInt(tx.OutputCount()).UpperLimitInc()
-	if varIntUpper == -1 {
+	if VarInt(tx.OutputCount()).UpperLimitInc() == -1 {
 		return 0, false, nil
 	}
-	changeOutputFee := varIntUpper
-	changeP2pkhByteLen := uint64(0)
+
+	// A new change output adds its own serialised size (value, script length
+	// prefix, script) to the transaction and may widen the output-count prefix.
+	changeOutputByteLen := uint64(0)
 	if output != nil && output.newOutput {
-		changeP2pkhByteLen = uint64(8 + 1 + 25)
+		scriptLen := len(*output.lockingScript)
+		changeOutputByteLen = uint64(8 + VarInt(scriptLen).Length() + scriptLen)
+		changeOutputByteLen += uint64(VarInt(tx.OutputCount()+1).Length() - VarInt(tx.OutputCount()).Length())
 	}
 
-	sFees := (size.TotalStdBytes + changeP2pkhByteLen) * uint64(stdFee.MiningFee.Satoshis) / uint64(stdFee.MiningFee.Bytes)
+	sFees := (size.TotalStdBytes + changeOutputByteLen) * uint64(stdFee.MiningFee.Satoshis) / uint64(stdFee.MiningFee.Bytes)
 	dFees := size.TotalDataBytes * uint64(dataFee.MiningFee.Satoshis) / uint64(dataFee.MiningFee.Bytes)
-	txFees := sFees + dFees + uint64(changeOutputFee)
+	txFees := sFees + dFees
 
 	// not enough to add change, no change to add
 	if available <= txFees || available-txFees <= DustLimit {
